@@ -21,6 +21,8 @@ inductive Access where
   | fileIO (name : String)      -- method of a file object opened by this method (incl. implicit close)
   | attr (name : String)        -- self.<mutable attribute> (mounts, _filesystems, write_fs, _closed, …) / raw dict step
   | libFn (name : String)       -- fs.copy / fs.move / fs.mirror / fs.tools function (takes locks itself)
+  | entryUse (name : String)    -- attribute / method / `in` on a local that holds a shared _DirEntry
+                                -- (assigned from self._get_dir_entry, self.root, <entry>.get_entry, …)
   deriving DecidableEq, Repr
 
 structure Seg where
@@ -101,14 +103,26 @@ def Body.lockSeq : Body → List String
   | .segs l => (l.flatMap (·.locks)).eraseDups
   | .unknown _ => []
 
+/-- uses of an entry variable that navigate or change the shared tree structure (the others —
+`to_info`, `is_dir`, `name`, `size`, … — read fields of the one entry) -/
+def entryNav : List String :=
+  ["get_entry", "set_entry", "remove_entry", "clear", "list", "in", "getitem", "_dir", "lock",
+   "add_open_file", "remove_open_file", "_open_files"]
+
 def Body.hasDirMut : Body → Bool
   | .segs l => l.any fun s => s.acc.any fun a => match a with | .dirMut _ => true | _ => false
   | .unknown _ => true
 
-/-- a dir-entry mutator or the root is touched outside a locked segment -/
+/-- a dir-entry mutator, the root, or a navigating use of an entry variable outside a locked segment -/
 def Body.unlockedTreeAccess : Body → Bool
   | .segs l => l.any fun s => !s.locked && s.acc.any fun a =>
-      match a with | .dirMut _ => true | .root => true | _ => false
+      match a with | .dirMut _ => true | .root => true | .entryUse n => entryNav.contains n | _ => false
+  | .unknown _ => true
+
+/-- ANY use of an entry variable (also a plain field read) outside a locked segment -/
+def Body.unlockedEntryUse : Body → Bool
+  | .segs l => l.any fun s => !s.locked && s.acc.any fun a =>
+      match a with | .entryUse _ => true | _ => false
   | .unknown _ => true
 
 def find? (t : List Entry) (c m : String) : Option Entry :=
